@@ -110,7 +110,11 @@ MeanGrid ==
       {MeanRec(1, 3, 2, Mask3(ev, msk)) : ev \in Arr3(1, 2, 3, {-1, 2}), msk \in MasksFixed},
       {MeanRec(2, 4, 2, Mask4(Gen4(3, 2, 2, 2, G1), msk)) : msk \in Masks4D},
       {MeanRec(2, 4, 3, Mask4(Gen4(3, 3, 2, 2, G2), msk)) : msk \in Masks4D},
-      {MeanRec(2, 4, 2, Mask4(Gen4(3, 2, 2, 3, G3), msk)) : msk \in Masks4D} >>
+      {MeanRec(2, 4, 2, Mask4(Gen4(3, 2, 2, 3, G3), msk)) : msk \in Masks4D},
+      \* NaN-free bootstrap arrays over {0, 1}: two models tie exactly in a subset of the samples, with every
+      \* split of the others into wins and losses (bootstrap pair test: ties leave the denominator)
+      {MeanRec(2, 2, 2, ev) : ev \in Arr2(5, 2, {0, 1})},
+      {MeanRec(2, 2, 3, ev) : ev \in Arr2(3, 3, {0, 1})} >>
    \o (IF Level = 1 THEN <<>> ELSE
    << {MeanRec(2, 2, 2, Mask2(ev, msk)) : ev \in Arr2(3, 2, {-2, 0, 1, 3}), msk \in SampleMasks3},
       {MeanRec(2, 3, 2, Mask3(ev, msk)) : ev \in Arr3(2, 2, 2, {-1, 0, 3}), msk \in Masks3D},
